@@ -36,7 +36,7 @@ CHECKS = {
  'C03': dict(engine='P (tables + driver model, one z3/CYK query per path) + L (lexer table -> z3 regex) + M (from_parse_error MIR) + native replay',
              technique='symbolic execution of the real LALR tables; z3 QF_BV equivalence with a reference CYK; z3 regular expressions',
              design='4/C03', category='model_checking',
-             text='For 15 syntactic slots (whole sequences, header, bodies, argument list, values, annotation / type parameters, names) every window up to 4-5 (quick) / 5-6 (thorough) '
+             text='For 17 syntactic slots (whole sequences, header, trailing text after each item kind, bodies, argument list, values, annotation / type parameters, names) every window up to 4-5 (quick) / 5-6 (thorough) '
                   'terminals over the full vocabulary: the generated parser reports no syntax error exactly when an independent reference grammar derives the document (z3 per path box); '
                   'no path ends without a tree and without an error; keywords/reserved words never lex as IDENT and all other identifier-shaped words do (unbounded, z3 regex); '
                   'every non-User parse error becomes an Error diagnostic.',
@@ -94,12 +94,15 @@ CHECKS = {
                   'built-in stays a built-in when imported, exactly one Error for what nothing covers, nothing covered is left unresolved). walk_types_mut offers every type node at any nesting depth exactly once '
                   'and resolve_types calls resolve_type on it (engine T, induction); Kani: built-in tables and the import-free resolver. Native sweep of 67 references.',
              note='Stubs: RandomState::new (empty containers only), alloc::fmt::format.'),
- 'C18': dict(engine='K (find_content_string) + A (scan start = first token, in C04) + native sweep', technique='Kani proof harness over the real back-scan, comment text symbolic',
+ 'C18': dict(engine='K (find_content_string) + A/content (scan start = first token; doc sources) + L (patterns of parse_javadoc as z3 regular expressions) + native sweeps',
+             technique='Kani proof harness over the real back-scan, comment text symbolic; z3 regular-expression inclusions over the patterns read from MIR',
              design='4/C18', category='model_checking',
-             text='Back-scan only: for every prefix (nothing, `;`, `}`, earlier doc comment), every comment body of <= 2 (quick) / 3, 5 (thorough) characters over 8 classes incl. 2-, 3- and 4-byte '
+             text='Back-scan: for every prefix (nothing, `;`, `}`, earlier doc comment), every comment body of <= 2 (quick) / 3, 5 (thorough) characters over 8 classes incl. 2-, 3- and 4-byte '
                   'code points and every pair of separators (space, LF, CRLF, block comment, line comment) the scan returns exactly the body, byte for byte; no documentation without a directly '
-                  'preceding doc comment. 247 native texts (accented, CJK, emoji).',
-             note='parse_javadoc (regex) is outside: decoration removal / line joining / tag splitting are not decided.'),
+                  'preceding doc comment. Every `doc` field a grammar action fills is get_javadoc(input, captured position) and no other field receives documentation. Text structure: the three patterns '
+                  'parse_javadoc compiles are read from its MIR; z3 shows (unbounded words) that every LF/CRLF blank line, optionally decorated, is a paragraph separator, every decorated line break is '
+                  'joined and words are never matched, `<char><blanks>@` starts a tag line; the split/trim/replace_all/join pipeline is read off the call sequence. 247 + 30 native texts.',
+             note='Outside: the regex crate and the exact composed text (only natively); white space other than blank/tab/CR/LF between a doc comment and its construct.'),
  'C01': dict(engine='K (doc back-scan totality, constructor arity) + A (offsets are token boundaries) + M (parse errors become diagnostics) + native sweeps',
              technique='Kani/CBMC; z3 over generated action wrappers and lexer patterns; MIR path enumeration', design='4/C01', category='model_checking',
              text='Partial: the four panic mechanisms named by the anchors. Doc back-scan returns normally for every text of <= 7 (9) characters over 10 classes; every offset handed to the line/column '
